@@ -60,9 +60,11 @@ def run_case(ctx, rep, spec, fields, limit, serial, model, start=None, path=None
         dx = spec["dx0"][d] / 2 ** L
         want = spec["geo_low"][d] + (np.arange(n) + 0.5) * dx
         got = np.asarray(out.get(key))
-        if got.shape != want.shape or not np.allclose(got, want, rtol=1e-12, atol=1e-12):
+        # cell sizes printed with few digits: the centres are known to that precision only
+        ctol = 1e-12 if not spec.get("dx_digits") else 10.0 ** (1 - int(spec["dx_digits"])) * max(1.0, abs(spec["geo_low"][d]) + n * dx)
+        if got.shape != want.shape or not np.allclose(got, want, rtol=ctol, atol=ctol):
             bad.append(f"{key} coordinates are not the cell centres of the level-{L} grid")
-    if not bad and model and (path, L) not in COORDS_DONE:
+    if not bad and model and (path, L) not in COORDS_DONE and not spec.get("dx_digits"):
         COORDS_DONE.add((path, L))
         for d, key in enumerate(("x", "y")):
             n = spec["grid0"][d] * 2 ** L
@@ -109,12 +111,18 @@ def run(ctx, rep, model=True):
         spec = plotgen.random_spec(ctx.rng, ndims=2, nlev=[1, 2, 3, 2][i % 4], nf=[2, 3, 1][i % 3], data="tags", B=[2, 4][i % 2],
                                    nblk=[[1, 1], [2, 1], [3, 2], [1, 3]][i % 4] if i % 2 == 0 else None,
                                    layout=["scatter", "perm", "files"][i % 3])
+        if i % 6 == 4 and len(spec["levels"]) >= 2:
+            # cell sizes that are no dyadic numbers, printed with six digits (0.333333 / 0.166667 = 1.999994...)
+            spec["dx0"] = [1.0 / 3.0, 0.7]; spec["dx_digits"] = 6
+            rep.count("cell-sizes-printed-with-six-digits")
         if i % 5 == 3 and len(spec["fields"]) >= 2:
             # two names that differ only by the shell-friendly spelling of the parentheses
             spec["fields"][0], spec["fields"][-1] = [("Y_OH", "Y(OH)"), ("Y(HO2)", "Y_HO2"), ("I_R_H2", "I_R(H2)")][(i // 5) % 3]
             rep.count("names-differing-by-parentheses")
         path = ctx.newdir("c08_")
         truth = plotgen.materialize(spec, path)
+        if i % 7 == 2:
+            path = ctx.via_symlink(path); rep.count("path-through-symlink-and-dotdot")
         names = list(dedup_names(spec["fields"]))
         nlev = len(spec["levels"])
         forms = [names[0], [names[-1], "grid_level"], "all", list(names), ["grid_level"], list(names)[::-1],
@@ -126,6 +134,18 @@ def run(ctx, rep, model=True):
                      path=path, truth=truth, cli=(limit == 0 and nlev >= 2 and j % 2 == 0) or (i + j) % 9 == 4)
         if len(rep.violations) >= 10:
             return
+    spec = big_box_spec(ctx.rng)
+    rep.count("box-of-393216-cells")
+    run_case(ctx, rep, spec, ["rho", "grid_level"], None, True, False)
+    run_case(ctx, rep, spec, "temp", 0, False, False)
+
+
+def big_box_spec(rng):
+    """one level-0 box of 768 x 512 cells (3 MB per field) under two small level-1 boxes"""
+    levels = [[[[0, 0], [767, 511]]], [[[0, 0], [15, 15]], [[32, 16], [47, 31]]]]
+    return {"ndims": 2, "fields": ["rho", "temp"], "time": 0.5, "geo_low": [0.0, -1.0], "dx0": [1 / 256, 1 / 256], "grid0": [768, 512],
+            "block": 16, "levels": levels, "layout": plotgen.random_layout(rng, levels, "files"),
+            "data": {"mode": "smallint", "seed": rng.randrange(1 << 30)}, "header_style": "amrex", "step": 1}
 
 
 def replay(ctx, rep, obj, model=True):
